@@ -156,6 +156,10 @@ func runBlackBox(t ev.Failer, c *ev.Collector, srv *t38.Srv, bc bbCase) {
 	conn := srv.MustDial()
 	defer conn.Close()
 	if bc.Huge > 0 {
+		// hooks and channels of earlier cases are looked at for every single write: with thousands of
+		// them the 90000-write script alone takes ten seconds
+		conn.MustDo("PDELHOOK", "mk*")
+		conn.MustDo("PDELCHAN", "mk*")
 		// do not let the megabytes stay: every later AOFSHRINK case would rewrite them
 		defer func() {
 			cl := srv.MustDial()
@@ -277,10 +281,10 @@ func TestC08_BlackBox(t *testing.T) {
 			Detach: rapid.IntRange(-4, len(detachCmds)-1).Draw(rt, "detach"),
 			Split:  rapid.IntRange(0, 5).Draw(rt, "split") == 0,
 			Sleep:  rapid.IntRange(0, 3).Draw(rt, "sleep") == 0,
-			Huge:   rapid.IntRange(-140, 2).Draw(rt, "huge"),
+			Huge:   map[int]int{37: 1, 61: 2}[rapid.IntRange(0, 99).Draw(rt, "huge")], // interior values: rapid favours the ends of a range
 			HugeAt: rapid.IntRange(0, 11).Draw(rt, "hugeat"),
 		}
-		if bc.Huge < 0 {
+		if bc.Huge < 0 || os.Getenv("VERIF_C08_NOHUGE") != "" {
 			bc.Huge = 0
 		}
 		for i, k := range bc.Kinds {
@@ -304,7 +308,11 @@ func TestC08_BlackBox(t *testing.T) {
 			}
 			cl.Close()
 		}
+		t0case := time.Now()
 		runBlackBox(rt, c, srv, bc)
+		if d := time.Since(t0case); d > time.Second && os.Getenv("VERIF_C08_SLOW") != "" {
+			fmt.Fprintf(os.Stderr, "SLOW %v %+v\n", d, bc)
+		}
 		if bc.Detach >= 0 {
 			c.Label("detach:" + detachCmds[bc.Detach][0])
 		}
